@@ -284,11 +284,11 @@ DoneChoosingBodySource:
 		authErr := auth.AuthenticateRequest(r, registry)
 
 		if copyErr != nil {
-			return nil, fmt.Errorf("error retrieving the response body: %v", copyErr)
+			return nil, abortUpload(pr, fmt.Errorf("error retrieving the response body: %v", copyErr))
 		}
 
 		if authErr != nil {
-			return nil, authErr
+			return nil, abortUpload(pr, authErr)
 		}
 	}
 
@@ -298,13 +298,13 @@ DoneChoosingBodySource:
 	// the ones set by the client, then the path pattern, and lastly the base path.
 	basePathURL, err := url.Parse(basePath)
 	if err != nil {
-		return nil, err
+		return nil, abortUpload(pr, err)
 	}
 	staticQueryParams := basePathURL.Query()
 
 	pathPatternURL, err := url.Parse(r.pathPattern)
 	if err != nil {
-		return nil, err
+		return nil, abortUpload(pr, err)
 	}
 	for name, values := range pathPatternURL.Query() {
 		if _, present := staticQueryParams[name]; present {
@@ -331,7 +331,7 @@ DoneChoosingBodySource:
 
 	req, err := http.NewRequestWithContext(context.Background(), r.method, urlPath, body)
 	if err != nil {
-		return nil, err
+		return nil, abortUpload(pr, err)
 	}
 
 	originalParams := r.GetQueryParams()
@@ -342,7 +342,7 @@ DoneChoosingBodySource:
 		_, present := originalParams[k]
 		if !present {
 			if err = r.SetQueryParam(k, v...); err != nil {
-				return nil, err
+				return nil, abortUpload(pr, err)
 			}
 		}
 	}
@@ -351,6 +351,16 @@ DoneChoosingBodySource:
 	req.Header = r.header
 
 	return req, nil
+}
+
+// abortUpload closes the reading end of the multipart pipe when the request cannot
+// be built, so that the goroutine writing the body fails its next write, returns,
+// and closes the files it was handed. It returns err.
+func abortUpload(pr *io.PipeReader, err error) error {
+	if pr != nil {
+		_ = pr.CloseWithError(err)
+	}
+	return err
 }
 
 func mangleContentType(mediaType, boundary string) string {
